@@ -238,3 +238,8 @@ def nontrivial(case, result):
     if op == "from_char":
         return int(toks[-1][2:], 16) >> w != 0
     return True
+
+
+def prebuild(root):
+    """translator: regenerate coq/Generated/Loops.v from /repo/src (cast_up / cast_down are proved equal to the model in Proofs/LoopsTieC09.v)"""
+    return run_translator(root, "rs2v_loops.py", "C09")
